@@ -18,19 +18,21 @@ TRUSTED_BASE = [
 
 PROPS = {
     "C02": {
-        "what": "rules of the fold (comparisons / logical operators yield 1 or 0 with the stated truthiness, DIVISION BY ZERO, TYPE MISMATCH, unary operators, ABS/INT, parentheses irrelevant), left-associative rendering, and the six operator tiers of the token-stream evaluator = the six precedence levels in the stated order",
-        "theorems": ["cmp_yields_bool", "cmp_mixed", "logical_ops", "truthiness", "division_by_zero", "arithmetic_mismatch", "unary_ops", "paren_irrelevant", "left_assoc_render", "tier_tables", "tier_order", "abs_int"],
-        "open": ["eval_render: for every tree e, the token-stream evaluator on render e ++ rest computes foldE e and stops before rest (proved for a reduced evaluator in notes/calibration-eval-render)"],
+        "what": "for EVERY syntax tree e the token-stream evaluator of the model, run on the minimally parenthesised rendering of e, consumes exactly that rendering and yields the value (or the error) of the strict left-to-right fold of e (eval_render, by induction over trees and tiers); plus the rules of the fold (comparisons / logical operators yield 1 or 0 with the stated truthiness, DIVISION BY ZERO, TYPE MISMATCH, unary operators, ABS/INT, parentheses irrelevant — also as a theorem about the evaluator), left-associative rendering, and the six operator tiers of the evaluator = the six precedence levels in the stated order",
+        "theorems": ["cmp_yields_bool", "cmp_mixed", "logical_ops", "truthiness", "division_by_zero", "arithmetic_mismatch", "unary_ops", "paren_irrelevant", "left_assoc_render", "tier_tables", "tier_order", "abs_int",
+                     "depth_eq_parenNesting", "eval_render_stageA", "eval_render_stageB", "eval_render", "eval_render_body", "eval_render_outcome", "eval_render_body_outcome", "paren_irrelevant_eval", "ready_immediate", "eval_render_fresh"],
+        "open": ["eval_render covers the trees of Ref.Expr (numbers, strings, scalar variables, parentheses, unary and binary operators, ABS, INT); array subscripts, user-function calls and RND inside expressions are outside the spec's tree type and rest on the correspondence slice"],
         "slices": ["c02"],
-        "level_text": "Spec in Lean: Ref.foldE (value of a syntax tree, strict, left to right) and Ref.render (minimal parentheses). Machine-checked theorems about the fold's rules exactly as the property states them and about the evaluator's operator tiers (each tier accepts exactly the operators of one precedence level; nesting order OR < AND < comparison < +,- < *,/ < ^ < unary). The theorem tying the token-stream evaluator to the fold for EVERY tree (eval_render) is not yet proved for the full model; the check rests for it on the correspondence slice: all trees with 1-2 (thorough: part of 3) binary operators, all unary/binary pairings, random trees up to size 9 with and without redundant parentheses; text rendered by the Lean spec; implementation's PRINT vs model's PRINT vs the spec's fold (computed by the Lean driver).",
-        "level_note": "PARTIAL proof. Trusted: Lean kernel; NumOps (IEEE arithmetic, powf, Display) parameters; hand-written model validated by sampling.",
+        "level_text": "Spec in Lean: Ref.foldE (value of a syntax tree, strict, left to right) and Ref.render (minimal parentheses). Machine-checked refinement theorem eval_render: for every tree, every state whose current line holds pre ++ render e ++ rest (rest not starting with an operator or '('), with room below the nesting cap, the model's token-stream evaluator returns exactly foldE e and leaves the state unchanged apart from the cursor (moved past the rendering) and the read counter; on an error of the fold it fails with the same error and the nesting counter restored. Corollaries: redundant parentheses never change the evaluator's outcome; the rules of the fold exactly as the property states them; each tier accepts exactly the operators of one precedence level (OR < AND < comparison < +,- < *,/ < ^ < unary). Correspondence slice: all trees with 1-2 (thorough: part of 3) binary operators, all unary/binary pairings, random trees up to size 9 with and without redundant parentheses; text rendered by the Lean spec; implementation's PRINT vs model's PRINT vs the spec's fold (computed by the Lean driver).",
+        "level_note": "Full refinement proof for the tree type of the spec; array subscripts / FN calls / RND in expressions only by correspondence. Trusted: Lean kernel; NumOps (IEEE arithmetic, powf, Display) parameters; hand-written model validated by sampling.",
     },
     "C03": {
-        "what": "semantic rules of the property on the model of the real code: NEXT forgets inner loops, undefined variables read as 0/empty, implicit arrays have indices 0..10 per dimension (10 inside, 11 BAD SUBSCRIPT), fresh cells read as 0/empty",
-        "theorems": ["next_forgets_inner", "undefined_reads_default", "implicit_array_shape", "implicit_array_bounds", "fresh_cells_default"],
-        "open": ["for_enters_body (FOR never tests its limit; limit/step fixed at entry)", "next_uses_stored", "read_line_order", "refines: transcript (M.run (compile p)) = transcript (R.run p) for every well-formed program (needs a reference semantics in Lean and a per-statement simulation)"],
+        "what": "semantic rules of the property on the model of the real code: FOR never tests its limit (control stays at the statement after FOR, limit and step are stored once), NEXT adds the stored step, tests against the stored limit with the sign of the stored step and jumps back to the stored location, NEXT forgets inner loops, READ visits DATA in ascending line order, undefined variables read as 0/empty, implicit arrays have indices 0..10 per dimension (10 inside, 11 BAD SUBSCRIPT), fresh cells read as 0/empty",
+        "theorems": ["next_forgets_inner", "undefined_reads_default", "implicit_array_shape", "implicit_array_bounds", "fresh_cells_default",
+                     "for_enters_body", "next_uses_stored_again", "next_uses_stored_done", "next_uses_stored", "read_line_order"],
+        "open": ["refines: transcript (M.run (compile p)) = transcript (R.run p) for every well-formed program (needs a reference semantics in Lean and a per-statement simulation)"],
         "slices": ["c03"],
-        "level_text": "Machine-checked theorems (Lean 4) about the model for the individual rules the property names (loop forgetting, defaults, implicit array bounds). The whole-program refinement against a reference semantics is NOT proved; the reference interpreter is the harness's independent interpreter over syntax trees (verif/harness/src/refint.rs) and is used as the oracle: grammar-generated structured programs are compiled to numbered text, run on the implementation, on the model (correspondence) and on the reference interpreter, comparing printed output and (error kind, line).",
+        "level_text": "Machine-checked theorems (Lean 4) about the model for the individual rules the property names (FOR entry, NEXT stepping with the stored limit/step, loop forgetting, DATA line order, defaults, implicit array bounds). The whole-program refinement against a reference semantics is NOT proved; the reference interpreter is the harness's independent interpreter over syntax trees (verif/harness/src/refint.rs) and is used as the oracle: grammar-generated structured programs are compiled to numbered text, run on the implementation, on the model (correspondence) and on the reference interpreter, comparing printed output and (error kind, line).",
         "level_note": "PARTIAL proof; the reference interpreter is Rust code in the harness, not a Lean spec. Known finding KF-ELSE-RESUME (THEN GOSUB ... ELSE) is generated at a low rate and reported as KNOWN-FINDING.",
     },
     "C04": {
@@ -42,19 +44,24 @@ PROPS = {
         "level_note": "Trusted: Lean kernel; the hand-written model of ProgramLines/Program (HashMap and BTreeSet as lists) validated by sampling; u64 range of line numbers enters only through parse_line_number (modelled, value < 2^64) — `after` is proved over unbounded naturals.",
     },
     "C12": {
-        "what": "blank- and case-insensitivity of the crunching matchers: skipWs absorbs an inserted blank, chomp_keyword / chomp_any_keyword / chomp_one_or_two_characters give the same token and related rests for inputs differing by one inserted blank anywhere, keyword matching is case-insensitive, a leading blank changes no token of the main loop",
-        "theorems": ["skipWs_blank", "skipWs_ins", "skipWs_ins_cases", "chompKeyword_ins", "chompKeywordTable_ins", "chompAnyKeyword_ins", "chompOneOrTwo_ins", "skipWs_caseEq", "chompKeyword_caseEq", "tokLoop_leading_blank"],
-        "open": ["numLoop_ins / symLoop_ins (number and identifier matchers respect inserted blanks)", "crunch_blank / crunch_case for whole lines with the protected-region side condition", "data_blank (blanks around DATA items)"],
+        "what": "blank- and case-insensitivity of the tokenizer: every matcher (blank skipping, keywords, operators, numbers, identifiers) gives the same token and related rests for inputs differing by a blank inserted anywhere or by letter case; one step of the main loop either yields the same token or is inside protected text on both sides; a whole line whose tokens are keywords / operators / numbers / identifiers tokenizes to exactly the same tokens after inserting or removing any number of blanks anywhere (iff form) and after any change of letter case",
+        "theorems": ["skipWs_blank", "skipWs_ins", "skipWs_ins_cases", "chompKeyword_ins", "chompKeywordTable_ins", "chompAnyKeyword_ins", "chompOneOrTwo_ins", "skipWs_caseEq", "chompKeyword_caseEq", "tokLoop_leading_blank",
+                     "numLoop_ins", "symLoop_ins", "nextToken_ins_cases", "nextToken_ins_unprotected", "nextToken_del_unprotected", "tokLoop_ins_unprotected", "tokLoop_del_unprotected",
+                     "tokenize_ins_unprotected", "tokenize_insBlanks_unprotected", "tokenize_del_unprotected", "tokenize_ins_iff_unprotected",
+                     "chompAnyKeyword_caseEq", "chompOneOrTwo_caseEq", "numLoop_caseEq", "symLoop_caseEq", "nextToken_caseEq_cases", "nextToken_caseEq_unprotected", "tokLoop_caseEq_unprotected", "tokenize_caseEq_unprotected",
+                     "tokLoop_fuel_irrelevant", "tokenizeRanges_not_outOfFuel"],
+        "open": ["crunch_blank / crunch_case for lines that also contain string / REM / DATA tokens, the edit avoiding the protected text (the one-step lemma nextToken_ins_cases already covers them: either same token or both outcomes protected)", "data_blank (blanks around DATA items)"],
         "slices": ["c12"],
-        "level_text": "Machine-checked theorems (Lean 4) that the blank-skipping primitive, the keyword matcher, the keyword table and the operator matcher of the model tokenizer are insensitive to a blank inserted ANYWHERE in their input and to letter case (for every input text, every keyword, every position). The lift to whole lines (number / identifier matchers, protected-region side condition, DATA blanks) is not yet proved: for those the check rests on the correspondence slice (implementation tokens = model tokens on original and perturbed lines, exhaustive single edits of short lines) and the implementation oracle (token sequences of original vs perturbed line).",
-        "level_note": "PARTIAL proof: matcher-level lemmas only; whole-line statement still open (listed in evidence under not_yet_proved). Trusted: Lean kernel, extractor for the keyword/operator tables, hand-written tokenizer model validated by sampling.",
+        "level_text": "Machine-checked theorems (Lean 4), for every input text, every position and every number of edits: all matchers of the model tokenizer and one step of its main loop are insensitive to a blank inserted anywhere and to letter case; lifted by induction over the main loop to whole lines consisting of keyword / operator / number / identifier tokens (tokenize line' = tokenize line for blank insertions, removals, and case changes), with no bound on length. For lines that also contain string, REM or DATA tokens the one-step theorem is proved (same token or protected on both sides) but the whole-line lift with the 'edit outside protected text' side condition is not; there, and for blanks around DATA items, the check rests on the correspondence slice (implementation tokens = model tokens on original and perturbed lines, exhaustive single edits of short lines) and the implementation oracle (token sequences of original vs perturbed line).",
+        "level_note": "PARTIAL proof: whole-line theorem for lines without string/REM/DATA tokens; lines with protected text rest on the one-step theorem plus the slice (listed in evidence under not_yet_proved). Trusted: Lean kernel, extractor for the keyword/operator tables, hand-written tokenizer model validated by sampling.",
     },
     "C13": {
-        "what": "token ranges of the model tokenizer: ordered, non-overlapping, start <= end, first at/after the skipped prefix; tokens start on a non-blank; error positions lie at/after the end of the last token",
-        "theorems": ["chain_mono", "tokLoop_chain", "ranges_chain", "skipWs_suffix", "skipWs_nonblank", "errPosOk_mono", "tokLoop_error_pos", "error_after_skip"],
-        "open": ["in_bounds (end <= line length) and strictness (start < end): need 'every matcher consumes a non-empty prefix'", "nonblank_ends", "self_tokenise (the text of a range re-tokenizes to its token)", "tokenize_total (fuel never runs out)"],
+        "what": "token ranges of the model tokenizer: ordered, non-overlapping, strictly non-empty (start < end), within the line (end <= byte length), first at/after the skipped prefix; each range is the byte range of a run of whole characters that starts on a non-blank and (REM/DATA apart) ends on a non-blank; tokenization is total (the fuel of the model loop never runs out); error positions lie at/after the end of the last token",
+        "theorems": ["chain_mono", "tokLoop_chain", "ranges_chain", "skipWs_suffix", "skipWs_nonblank", "errPosOk_mono", "tokLoop_error_pos", "error_after_skip",
+                     "nextToken_cases_consumes", "nextToken_consumes", "ranges_in_bounds_strict", "ranges_in_bounds_strict_skip", "tokenize_total", "nonblank_ends", "tokLoop_exact", "ranges_exact_zero", "ranges_exact"],
+        "open": ["self_tokenise (the text of a range re-tokenizes to its token; hard because the identifier matcher looks ahead for keywords)"],
         "slices": ["c13", "c05"],
-        "level_text": "Machine-checked theorems (Lean 4) for every line and skip: reported ranges form a chain skip <= s1 <= e1 <= s2 <= e2 ..., tokens start on non-blank characters, an error position is never before the end of the last token; character-boundary alignment is structural in the model (positions are UTF-8 lengths of whole-character prefixes). Upper bounds, strictness and re-tokenization of a range are not yet proved: the check rests for them on the correspondence slice ((token, range) pairs equal between implementation and model; exhaustive over all strings up to length 3/5 of a 17-symbol alphabet) and on the implementation oracle (bounds, boundaries, order, blank ends, re-tokenization of every slice).",
+        "level_text": "Machine-checked theorems (Lean 4) for every line and skip: reported ranges form a chain skip <= s1 < e1 <= s2 < e2 ... <= len(line), every range is exactly the bytes of a run of whole characters of the line beginning on a non-blank and (REM/DATA apart) ending on a non-blank, tokenization terminates within its fuel, an error position is never before the end of the last token; character-boundary alignment is structural in the model (positions are UTF-8 lengths of whole-character prefixes). Re-tokenization of a range to its own token is not yet proved: the check rests for it on the correspondence slice ((token, range) pairs equal between implementation and model; exhaustive over all strings up to length 3/5 of a 17-symbol alphabet) and on the implementation oracle (bounds, boundaries, order, blank ends, re-tokenization of every slice).",
         "level_note": "PARTIAL proof (see not_yet_proved in evidence). Trusted: Lean kernel, extractor, hand-written tokenizer model validated by sampling and bounded exhaustive enumeration.",
     },
     "C01": {
@@ -156,11 +163,12 @@ PROPS = {
         "level_note": "Process-level I/O (rustyline, buffering, exit codes) is exercised, not modelled; the time-based seed is a parameter of the model.",
     },
     "C16": {
-        "what": "each growth site of stack/arrays/variables respects its cap or typing rule: GOSUB and FN frames <= 32 with OUT OF MEMORY at the cap and the stack untouched, created arrays have prod(dims) cells <= 10000 and the kind of their suffix, scalars stored only with matching suffix",
-        "theorems": ["caps", "gosub_cap", "call_cap", "dimSizes_spec", "create_spec", "setVar_typed"],
-        "open": ["for_cap (<= 32 loops, no duplicate names, re-entry does not accumulate)", "arraySet / bindArgs typing", "lift to every reachable state of every session (WF invariant)"],
+        "what": "each growth site of stack/arrays/variables respects its cap or typing rule: GOSUB and FN frames <= 32 with OUT OF MEMORY at the cap and the stack untouched, FOR keeps <= 32 open loops with distinct names on the Ok and the Err path (re-entering an open loop never grows the stack), NEXT never grows it, created arrays have prod(dims) cells <= 10000 and the kind of their suffix, scalars stored only with matching suffix",
+        "theorems": ["caps", "gosub_cap", "call_cap", "dimSizes_spec", "create_spec", "setVar_typed",
+                     "removeLoop_spec", "removeLoop_length_lt", "removeLoop_nodup", "for_cap", "next_cap"],
+        "open": ["arraySet / bindArgs typing", "lift to every reachable state of every session (WF invariant)"],
         "slices": ["c16"],
-        "level_text": "Machine-checked theorems (Lean 4), for every state: the operation-level cap and typing facts at the only sites where the subroutine stack, the array table and the variable table grow. The loop-stack site and the lift to all reachable states are not yet proved; there the check rests on the correspondence slice (full state snapshot after EVERY host call of targeted cap / re-entry / typing programs and random walks, implementation vs model) and on the snapshot oracle (frames <= 32, loops <= 32 distinct, cells = prod dims <= 10000, kinds obey suffixes).",
+        "level_text": "Machine-checked theorems (Lean 4), for every state: the operation-level cap and typing facts at the only sites where the subroutine stack, the array table and the variable table grow. The lift to all reachable states of every session is not yet proved; there the check rests on the correspondence slice (full state snapshot after EVERY host call of targeted cap / re-entry / typing programs and random walks, implementation vs model) and on the snapshot oracle (frames <= 32, loops <= 32 distinct, cells = prod dims <= 10000, kinds obey suffixes).",
         "level_note": "PARTIAL proof. Hook: verif-hooks snapshot.",
     },
     "C17": {
@@ -185,6 +193,20 @@ PROPS = {
 
 
 NOT_CLAIMED = {}
+
+# second layer of theorems (continuation files Props/Cxx<Suffix>.lean): merged over the entries above
+from props_more import MORE  # noqa: E402
+for _pid, _m in MORE.items():
+    _p = PROPS[_pid]
+    _p["theorems"] = _p["theorems"] + [t for t in _m.get("theorems", []) if t not in _p["theorems"]]
+    if "open" in _m:
+        _p["open"] = _m["open"]
+    if "what" in _m:
+        _p["what"] = _p["what"] + "; " + _m["what"]
+    if "level" in _m:
+        _p["level_text"] = _m["level"]
+    if "note" in _m:
+        _p["level_note"] = _m["note"]
 
 
 def _load_known():
